@@ -1,5 +1,6 @@
 import SamVerif.Model.Doc
 import SamVerif.Model.CommentQueue
+import SamVerif.Model.Imports
 import Driver.Util
 /-! Protocols of C09 (model side): `layout`, `expand`, `flatten`, `layoutdoc`, `agree`, `queue`,
 `prepend`, `echo`. Same line formats as `harness/src/bin/c09.rs`. -/
@@ -93,7 +94,22 @@ def readList (s : String) : List Comment :=
   if s == "-" then [] else
   (s.splitOn ",").map fun h => ⟨.block, if h == "e" then [] else strOfHex h⟩
 
-open SamVerif.CommentQueue in
+open SamVerif.CommentQueue SamVerif.Imports in
+/-- `path;kind=hex,..|-;hexmember,..|-` joined by `/` (or `-` for no imports). -/
+def readImports (s : String) : List Import :=
+  if s == "-" then [] else
+  (s.splitOn "/").map fun item =>
+    match item.splitOn ";" with
+    | [p, cs, ms] =>
+      { path := strOfHex p,
+        comments := if cs == "-" then [] else (cs.splitOn ",").map fun c =>
+          match c.splitOn "=" with
+          | [k, h] => ⟨kindOf k, strOfHex h⟩
+          | _ => ⟨.block, []⟩,
+        members := if ms == "-" then [] else (ms.splitOn ",").map strOfHex }
+    | _ => { path := [], comments := [], members := [] }
+
+open SamVerif.CommentQueue SamVerif.Imports in
 def step (_ : Unit) (line : String) : Unit × String :=
   let ws := words line
   ((), match ws with
@@ -146,6 +162,13 @@ def step (_ : Unit) (line : String) : Unit × String :=
       let texts := (get s r).getD []
       let shown := if texts.isEmpty then "-" else ",".intercalate (texts.map fun c => hexOfStr c.text)
       s!"r:{shown} n:{s.length}"
+  | ["importsdoc", shape, dump] =>
+    let imps := readImports dump
+    if shape == "only" then s!"ok only {dump} | {showDoc (importsOnlyDoc imps)}"
+    else
+      -- the module continues after the imports: `C <import doc> C <import doc> .. C LH` is a prefix
+      let parts := (sortedGroups imps).map fun g => "C " ++ showDoc (importDoc g)
+      s!"ok more {dump} | {" ".intercalate (parts ++ (if imps.isEmpty then [] else ["C LH"]))}"
   | "echo" :: rest => " ".intercalate rest
   | _ => "bad-op")
 
